@@ -660,7 +660,15 @@ func (f *fixture) batches(kind string, n0 uint64, shard, n int, idx *int, res *e
 		s := f.ethSpec(kind, nonce)
 		return el{name, sender, nonce, w.SignEth(w.Keys[sender], s), false}
 	}
-	alpha := []el{mk("S(n)", f.S, n0), mk("S(n+1)", f.S, n0+1), mk("T(m)", T, m0), mk("T(m+1)", T, m0+1)}
+	// a contract creation (the EVM manages the creator's nonce itself during a creation)
+	mkCreate := func(name string, sender int, nonce uint64) el {
+		s := f.ethSpec(kind, nonce)
+		s.To, s.AL = nil, nil
+		s.Gas = 100000
+		s.Data = common.FromHex("6133ff6000526002601ef3") // returns the runtime CALLER SELFDESTRUCT
+		return el{name, sender, nonce, w.SignEth(w.Keys[sender], s), false}
+	}
+	alpha := []el{mk("S(n)", f.S, n0), mk("S(n+1)", f.S, n0+1), mk("T(m)", T, m0), mk("T(m+1)", T, m0+1), mkCreate("S(n)/create", f.S, n0), mkCreate("S(n+1)/create", f.S, n0+1)}
 	// a message of the second sender with the right nonce but signed for another chain id, or (legacy
 	// only) without any chain id: riding along with properly signed messages must not get it accepted
 	{
@@ -713,6 +721,21 @@ func (f *fixture) batches(kind string, n0 uint64, shard, n int, idx *int, res *e
 					r := w.Deliver(bz)
 					post := f.snap()
 					postT := w.App.AccountKeeper.GetAccount(w.Ctx(), w.Addrs[T]).GetSequence()
+					// every message of an accepted envelope is used up: delivered again on its own it
+					// must be rejected
+					replayed := ""
+					if r.Code == 0 && valid {
+						for i, e := range cur {
+							if one, err := world.WrapEth(e.tx); err == nil {
+								undo := w.Branch()
+								if rr := w.Deliver(one); rr.Code == 0 {
+									replayed = fmt.Sprintf("%s (position %d)", e.name, i)
+								}
+								undo()
+								res.Transitions++
+							}
+						}
+					}
 					restore()
 					res.Transitions++
 					res.Evaluations++
@@ -729,6 +752,10 @@ func (f *fixture) batches(kind string, n0 uint64, shard, n int, idx *int, res *e
 					} else {
 						if r.Code == 0 {
 							res.Outcomes["batch:valid:accepted"]++
+							if replayed != "" {
+								res.AddViolation(engine.Violation{Signature: fmt.Sprintf("C03|kind=%s|case=batch|breach=replay-after-batch", kind),
+									What: "a message of an accepted envelope was accepted a second time when delivered on its own", Path: p, Detail: map[string]any{"replayed": replayed}})
+							}
 							if post.seq != seqS || postT != seqT {
 								res.AddViolation(engine.Violation{Signature: fmt.Sprintf("C03|kind=%s|case=batch|breach=seq", kind),
 									What: "an accepted batch did not advance every sender's sequence by its number of messages", Path: p})
